@@ -4,6 +4,10 @@ import json, os, subprocess
 V = os.path.dirname(os.path.dirname(os.path.abspath(__file__)))
 
 CHECKS = {
+ "C06": dict(level="model_checking", design="DESIGN.md 3/C06",
+   technique="TLA+ Mutability protocol (spec/Mutability.tla) model-checked on a scenario machine (C06MC); scenarios replayed on the real interpreter (spec->code); step-limit cancellation at every step index (fault enumeration); hook traces of all runs and of the repository's test programs validated by TLC (C06Trace, code->spec)",
+   text="TLC checks the iterator-counter protocol (counts exact, never negative, quiescent when the stack is empty) on every behaviour of the scenario machine (construct class x nesting x target x exit path x frozen) and emits each scenario with the required outcome of every mutation attempt. The harness renders each scenario for list, dict and set with every concrete construct of its class (for, four comprehension forms, sorted/min/max with key=, built-ins calling back through Hash/Truth/compare of host elements, *args, sequence assignment, for-unpacking, list/tuple/enumerate/reversed/zip/extend/sorted/len, the set-algebra methods, Go Iterate/Elements/Entries) and every would-change mutator (Go API and Starlark methods/syntax), checks that attempts during iteration fail and leave the collection unchanged, that the collection is mutable again as soon as the loop ends and after every exit path (exhaustion, break, return, error, error in nested call, host panic, cancellation), that the call-stack depth is restored and the thread reusable; it re-runs normally terminating scenarios under every step limit. All hook events (iterator begin/done with the implementation's counter value, freeze, frame push/pop, attempts) of these runs and of starlark/testdata are validated by TLC against the protocol.",
+   note="Trusted: TLC, the verif hooks (add-only, at the counter updates), probes as stand-ins for arbitrary elements. dict(X)/d.update(X) with a dict operand snapshot X first and are therefore not iterating constructs. Quick tier sweeps step limits for every 9th scenario, thorough for all."),
  "C12": dict(level="model_checking", design="DESIGN.md 3/C12",
    technique="TLA+ ordered-map model + concrete hash-table model (spec/Hashtable.tla, C12MC.tla): refinement model-checked; every transition of the product replayed on the real dict/set (spec->code); exhaustive operation sequences and long adversarial histories validated by TLC (code->spec)",
    text="(1) TLC proves on scaled-down constants (BucketSize 2, growth and chain overflow reachable) that the concrete table design refines the insertion-ordered association list. (2) TLC explores the product of the abstract map and the concrete table with the real constants over the property's universe (keys of which 3 share one hash, one with hash 0) and emits every transition with a shortest path; each is replayed on the real dict and set through the Go API and through Starlark methods/operators with host keys whose Hash() the model dictates, comparing results, length, membership, lookups and full iteration order. (3) every operation sequence of length 4 (quick) / 5 plus a sample of length 7 (thorough) over the 12-operation reduced alphabet is executed on the real dict and set and validated step by step by TLC. (4) random histories of 10^4-4x10^4 operations over keys with five adversarial hash distributions (all equal, equal modulo table size, 0/1, spread, seven classes) are logged and validated by TLC against the abstract module.",
@@ -19,7 +23,7 @@ CHECKS = {
 }
 
 def main():
-    hooks_commits = []
+    hooks_commits = ["021bf1b", "4fc5f2e"]
     m = {
       "version": 1,
       "setup_cmd": "bin/setup",
